@@ -119,6 +119,39 @@ CLAIMS = {
         note=NOTE_BASE + " sympy is trusted for elementary identities (positive symbols).",
         technique="static analysis: dominance rule + symbolic kernel-term extraction from MIR + CAS identity check",
     ),
+    "C06": dict(
+        category="other",
+        text="Static check that means and weighted sums are the defined quantities: pairing of data and weights by logical index (R9/R1/R8), "
+             "guards (R6), and symbolic extraction of each routine's value from MIR compared by a CAS with the definition in exact arithmetic "
+             "(Σx/n with the type's own Div, Σd·w from zero, weighted_sum/Σw, recip(mean(recip)), exp(mean(ln))); per-axis forms are "
+             "operation-identical lane kernels with the caller's weights. Decides the exact-arithmetic clause and the skeleton that the "
+             "standard summation bound needs; does not decide the float error bound itself or overflow.",
+        design_ref="DESIGN.md §4 C06",
+        note=NOTE_BASE + " sympy is trusted for rational/elementary identities; ndarray's sum/mean are Σ and Σ/len.",
+        technique="static analysis: symbolic reduction-skeleton and term extraction from MIR + CAS; kernel-equality between siblings",
+    ),
+    "C07": dict(
+        category="other",
+        text="Static check of variance/moment routines: West's weighted-variance loop is extracted from MIR as a recurrence and proved by "
+             "CAS induction over abstract sums to equal Σw(x−x̄)²/(Σw−ddof) in exact arithmetic (so ddof reaches the denominator); kurtosis "
+             "and skewness formulas; order 0/1 are the exact constants; per-axis variants map the same kernel with the caller's weights "
+             "and ddof; std = sqrt∘var; guards and pairing. Forward-error bounds, the sign guarantee and the general-order pipeline's "
+             "numerics are not decided.",
+        design_ref="DESIGN.md §4 C07",
+        note=NOTE_BASE + " sympy is trusted for rational identities.",
+        technique="static analysis: loop-recurrence extraction from MIR + CAS induction; delegation/constant-arm rules",
+    ),
+    "C12": dict(
+        category="other",
+        text="Static check of the strategy-built bins: n_bins() and build() of the shared EquiSpaced builder use the same edge formula "
+             "operation for operation (extracted from MIR as functions of their loop counters), build iterates 0..=n_bins(), edge(0)=min, "
+             "equal widths (CAS); every builder is constructed under the guard width>0 ∧ min<max; strategies pass a.min()/a.max() in order "
+             "and delegate; error rows. Necessary conditions of the property; covering of the maximum and termination for floats are not "
+             "fully decided.",
+        design_ref="DESIGN.md §4 C12",
+        note=NOTE_BASE,
+        technique="static analysis: sibling-agreement on extracted operation DAGs + constructor-dominance rules",
+    ),
 }
 
 PENDING = "not yet claimed in this revision: the static rule set for it is still being implemented (see DESIGN.md §8); no check is registered rather than a weak one"
